@@ -256,6 +256,18 @@ pub fn run(ctx: &Ctx) -> i32 {
     for p in parts.into_iter().rev() {
         rep.merge(p);
     }
+    // hand-assembled composites (transforms no planner produces)
+    let hand: Vec<usize> = HAND_LENS.to_vec();
+    let hparts = par_map(&hand, |_, &n| {
+        let mut r = Report::new();
+        one_len::<f32>(n, &[PK::Hand], &ks, &mut r, None);
+        one_len::<f64>(n, &[PK::Hand], &ks, &mut r, None);
+        r
+    });
+    for p in hparts {
+        rep.merge(p);
+    }
+    rep.set("handbuilt_lengths", Json::Arr(hand.iter().map(|x| Json::Int(*x as i64)).collect()));
     let ex_n = t.pick(64, 256);
     let ex: Vec<usize> = (1..=ex_n).rev().collect();
     let seed = ctx.seed;
